@@ -159,11 +159,13 @@ Ghosts(c, op, tx, key, arg, eff) ==
       evPop    == key = EvKey /\ PopHit(tx, key, arg, eff)
       p        == PopPos(evIds, arg.i)
       wiped    == ~evAppend /\ ~evPop /\ new # old
+      \* a raw write of a whole list onto the stack key stacks its elements as new events
+      fresh    == IF new.t = "list" THEN [i \in 1..Len(new.l) |-> pushed + i] ELSE <<>>
   IN
   /\ evIds' = IF evAppend THEN Append(evIds, pushed + 1)
               ELSE IF evPop THEN RemoveAt(evIds, p)
-              ELSE IF wiped THEN <<>> ELSE evIds
-  /\ pushed' = IF evAppend THEN pushed + 1 ELSE pushed
+              ELSE IF wiped THEN fresh ELSE evIds
+  /\ pushed' = IF evAppend THEN pushed + 1 ELSE IF wiped THEN pushed + Len(fresh) ELSE pushed
   /\ deliveredAll' = IF evPop /\ op = "logAndFlush" THEN deliveredAll \cup {evIds[p]} ELSE deliveredAll
   /\ dup' = (dup \/ (evPop /\ op = "logAndFlush" /\ evIds[p] \in deliveredAll))
   /\ lost' = IF evPop /\ op # "logAndFlush" THEN lost \cup {evIds[p]}
@@ -278,7 +280,7 @@ SetVals == {NoneV} \cup {AtomV(a) : a \in Atoms} \cup {ListV(l) : l \in SetLists
 On(name) == name \in Ops
 Next ==
   \E c \in Clients :
-    \/ On("set")    /\ \E k \in RawKeys, v \in SetVals : Set(c, k, v)
+    \/ On("set")    /\ \E k \in RawKeys, v \in SetVals : (k = EvKey => pushed + Len(v.l) <= MaxPush) /\ Set(c, k, v)
     \/ On("get")    /\ \E k \in RawKeys \cup CacheKeys : Get(c, k)
     \/ On("append") /\ \E k \in RawKeys, a \in Atoms :
                          /\ (k = EvKey => pushed < MaxPush)
